@@ -143,7 +143,10 @@ def _worker2(spec):
             # inputs on which the reference driver hits its step limit are not run
             if cls != 'lr1' and model.expect(g, tbs[gi], data).res.hang:
                 out['counts']['inputs_skipped_reference_step_limit'] += 1; continue
-            for mode in modes: jobs.append((gi, idx, mode, data))
+            for mode in modes:
+                # grammars with contextual functors are driven through context_parse
+                if mode == 0 and prop == 'C05' and any(r.ftor == 'x' for r in g.rules): mode = 20
+                jobs.append((gi, idx, mode, data))
     rc, recs, _, meta, err = eg.run_jobs(exe, jobs, timeout=cfg.get('timeout', 300))
     byk = {(r.gi, r.idx, r.mode): r for r in recs}
     ctxinfo = {'rc': rc, 'meta': meta, 'err': err[-2000:]}
@@ -613,11 +616,12 @@ def judge_c05(spec, gs, tbs, inputs, diags, dumps, maps, tdiffs, byk, jobs, info
         pure = is_pure_binary(g)
         if pure: C['pure_binary_grammars'] += 1
         for idx, data in enumerate(inputs[gi]):
-            r = byk.get((gi, idx, 0))
+            r = byk.get((gi, idx, 0)) or byk.get((gi, idx, 20))
             if r is None: continue
             ex = model.expect(g, tb, data)
             if ex.res.hang: continue
             C['evaluations'] += 1
+            if r.mode == 20: C['parses_through_context_parse'] += 1
             if nsr and ex.ok and len(ex.res.reductions) >= 4: out['distinct'].append(common.sha(g.key(), data)[:12])
             got = model.mask_positions(_COPYEV.sub('', r.events)); want = model.mask_positions(ex.events)
             if (r.res == 1) != ex.ok or got != want:
